@@ -3,12 +3,12 @@ CONSTANTS
     Machine = "rot"
     CIDS = {"c1","c2","c3"}
     VALS = {"vA","vB"}
-    MAXIDX = 4
-    INITS <- AllInits
-    ROTOPS = {"save","clean","mklogs"}
-    KEEPS = {1,2,3}
-    MAXOPS = 4
-    MAXCLEAN = 3
+    MAXIDX = 12
+    INITS <- EmptyInit
+    ROTOPS = {"save"}
+    KEEPS = {10,11,12}
+    MAXOPS = 15
+    MAXCLEAN = 14
     PEERS = {"p1","p2","p3"}
     ADDRSETS <- AddrSetsFull
     PRIOS <- PriosFull
